@@ -32,11 +32,11 @@ INFIX = ["+", "-", "*", "/", "%", "<<", ">>", "_", "&", "^", "|", "!"]
 HEADS = [
     "nop", "clr {E}", "mov {E}, {F}", "jsr {E}, {F}", "mul {E}, {F}", "rts {E}", "br {E}", "sob {E}, {F}", "trap {E}", "spl {E}", "mark {E}",
     "ldf {E}, {F}", "stf {E}, {F}", "clrf {E}", "ldexp {E}, {F}", "stexp {E}, {F}", "fadd {E}", "xor {E}, {F}", "pop {E}", "push {E}", "call {E}",
-    ".byte {E}", ".word {E}, {F}", ".dword {E}", "{E}, {F}", ".ascii {E}", ".asciz {E}", ".rad50 {E}", ".blkb {E}", ".blkw {E}", ".even", ".odd",
+    ".byte {E}", ".word {E}, {F}", ".dword {E}", "W7: {E}, {F}", ".ascii {E}", ".asciz {E}", ".rad50 {E}", ".blkb {E}", ".blkw {E}", ".even", ".odd",
     ".align {E}", ". = {E}", ".link {E}", ".repeat {E} { .word {F} }", ".repeat 2 { L9: nop }", ".repeat 2 { Q = {E} }", "insert_file {E}",
     ".include {E}", ".extern {E}", ".end", ".once", ".error {E}", ".list {E}", ".title {E}", ".ident {E}", ".page", "make_bin {E}", "make_raw {E}",
     "make_wav {E}, {F}", "make_turbo_wav {E}", "make_bk0010_rom {E}", "X9 = {E}", "X9 == {E}", "L8: {E}", "mov {E}", "mov {E}, {F}, {E}",
-    "nop {E}", ".even {E}", ".byte", ".word", "frob {E}", ".frob {E}", "word {E}", "r1 {E}", "mov r1 r2", "{E}",
+    "nop {E}", ".even {E}", ".byte", ".word", "frob {E}", ".frob {E}", "word {E}", "r1 {E}", "mov r1 r2", "W8: {E}",
 ]
 CONTEXT = "DEF = 5\nSELF = SELF + 1\n"  # FWD is defined after the statement under test
 CONTEXT_NOSELF = "DEF = 5\n"
@@ -114,6 +114,8 @@ def _ob(tag, text, **kw):
         kw.setdefault("vmax", 24)  # the value can become a length, a count or a realised bit pattern
     if len(vars_) == 2 and any(m in text for m in (" & ", " ^ ", " | ", " ! ")):
         kw["vmax"] = 3  # both operands of a bitwise operator are realised
+    if len(vars_) == 2 and any(m in text for m in (".align", ".blkb", ".blkw", ".repeat", ". =")):
+        kw["vmax"] = min(kw.get("vmax", 24), 6)  # two realised leaves under a count
     return Ob(oid=tag, harness=P + "h_total", params={"text": text, "hang_probe": True, **kw}, vars=vars_, timeout=200, per_path=40,
               note=text.replace("\n", " / ")[:200])
 
@@ -180,8 +182,29 @@ def obligations(tier, seed):
             if h.startswith((".repeat", ".blkb", ".blkw", ".align")):
                 parts.append(h.replace("{E}", rnd.choice(["{V1}", "17", "DEF", "UNDEF", "FWD"])).replace("{F}", rnd.choice(LEAVES)))
             else:
-                parts.append(h.replace("{E}", rnd.choice(LEAVES + d1)).replace("{F}", rnd.choice(LEAVES)))
+                e, f = rnd.choice(LEAVES + d1), rnd.choice(LEAVES)
+                if h.startswith(PATH_HEADS):
+                    e, f = e.replace("{V1}", "101").replace("{V2}", "102"), f.replace("{V1}", "101").replace("{V2}", "102")
+                parts.append(h.replace("{E}", e).replace("{F}", f))
         add("multi", CONTEXT_NOSELF + "\n".join(parts) + TAIL)
+    # string operands: escapes (complete, truncated, unknown), unterminated strings, other quote characters, raw <n> bytes,
+    # characters the output charset cannot encode -- also as the very last thing in the file
+    strings = ['"ab"', '"ab\\x4"', '"a\\x"', '"a\\q"', '"a\\n\\x41\\\\"', '"\u65e5\u672c"', "/ab/", "'ab'", '"ab', '<{V2}>', '"a" <{V2}> "b"', '""', '"ab\\']
+    for head in (".ascii {E}", ".asciz {E}", ".rad50 {E}", ".error {E}", "make_wav {E}, {F}", "make_wav \"o.wav\", {E}", "insert_file {E}", ".include {E}",
+                 ".ident {E}", ".title {E}", ".word {E}", "mov #{E}, r0"):
+        for e in strings:
+            add("str", program(head, e, '"ab"'))
+            e2 = e.replace("{V2}", "102") if head.startswith(PATH_HEADS) else e
+            add("str-eof", head.replace("{E}", e2).replace("{F}", '"x"'))  # no trailing newline, nothing after it
+    # code blocks where they are and are not expected
+    for head in HEADS:
+        if "{ " in head:
+            continue
+        stmt = head.replace("{E}", "{V1}").replace("{F}", "r2")
+        add("block", CONTEXT_NOSELF + stmt + " { nop }" + TAIL)
+    for stmt in (".repeat {V1}, {V2} { nop }", ".repeat { nop }", ".repeat {V1}", ".repeat {V1} { .repeat {V2} { nop } }", ".repeat 2 { .repeat 2 { .repeat 2 { .byte {V1} } } }",
+                 ".repeat {V1} { .end }", ".repeat 2 { .include \"nofile\" }", ".repeat 2 { .link {V1} }", ".repeat 2 { . = . + {V1} }", "{ nop }", ".repeat 2 { nop"):
+        add("block", CONTEXT_NOSELF + stmt + TAIL)
     add("huge", ".word 1 << 20000.\n")
     add("huge", "X9 = 1 _ \"ab\"\n.byte X9\n")
     for i, c in enumerate(CYCLES):
